@@ -11,6 +11,7 @@ import (
 
 	gpb "github.com/openconfig/gnmi/proto/gnmi"
 	"github.com/openconfig/goyang/pkg/yang"
+	"github.com/openconfig/ygot/verifharness/corpus"
 	"github.com/openconfig/ygot/verifharness/gen"
 	"github.com/openconfig/ygot/verifharness/model"
 	"github.com/openconfig/ygot/ygot"
@@ -39,6 +40,13 @@ func init() {
 func c03Header(seed uint64, tier string) *Case {
 	r := simrt.NewRng(simrt.Mix(seed, 3003))
 	p := pickPkg(&r)
+	if seed%12 == 5 {
+		for _, n := range corpusNames() {
+			if corpus.Get(n).HasTag("sharedcont") {
+				p = corpus.Get(n) // two ordered lists in one container
+			}
+		}
+	}
 	n := 1 + r.Intn(4)
 	if tier == "thorough" {
 		n = 1 + r.Intn(8)
@@ -218,6 +226,72 @@ func byAddr(m *model.Model, preferShadow bool) map[string]*model.Leaf {
 		}
 	}
 	return out
+}
+
+// sharedContainerLoss recognises the known finding about containers shared by an ordered list
+// and other data nodes: DiffWithAtomic's atomic notification for a changed ordered list has the
+// list's parent container as its prefix and carries the list only (and a vanished list is
+// deleted at the level of that container), so applying it removes whatever else the container
+// holds. Exactly that is recognised, nothing more: every difference must be a leaf of the
+// modified tree that is missing from the copy and that
+//   - no notification carried, while an atomic prefix or a delete covers it, or
+//   - a notification carried and a LATER ATOMIC notification's prefix covers (two changed lists
+//     in one container: the second replace removes what the first wrote).
+// A leaf that was carried and is removed by a later non-atomic delete, a wrong value, or a leaf
+// too many is not this finding. Returns "" when the differences are of another kind.
+func sharedContainerLoss(want, got map[string]string, mb *model.Model, notifs []*gpb.Notification, preferShadow bool) string {
+	for q, v := range got {
+		if w, ok := want[q]; !ok || w != v {
+			return ""
+		}
+	}
+	sentIn := map[string]int{} // address -> index of the last notification that carried it
+	for i, n := range notifs {
+		for _, u := range n.Update {
+			sentIn[model.FromGNMI(n.Prefix, u.Path)] = i
+		}
+	}
+	var lost []string
+	for q := range want {
+		if _, ok := got[q]; ok {
+			continue
+		}
+		l := mb.Leaves[q]
+		if l == nil {
+			return ""
+		}
+		explained := false
+		for _, a := range l.Addressable(preferShadow) {
+			si, sent := sentIn[a]
+			for j, n := range notifs {
+				if sent && j <= si {
+					continue
+				}
+				if n.Atomic && model.Under(a, model.FromGNMI(n.Prefix, nil)) {
+					explained = true
+				}
+				if !sent {
+					for _, d := range n.Delete {
+						if model.Under(a, model.FromGNMI(n.Prefix, d)) {
+							explained = true
+						}
+					}
+				}
+			}
+		}
+		if !explained {
+			return ""
+		}
+		lost = append(lost, q)
+	}
+	if len(lost) == 0 {
+		return ""
+	}
+	sort.Strings(lost)
+	if len(lost) > 4 {
+		lost = append(lost[:4], fmt.Sprintf("… %d more", len(lost)-4))
+	}
+	return fmt.Sprintf("content of a container that an ordered list shares with other nodes is lost: %v", lost)
 }
 
 // c03Step runs one step. A violation is first judged with every set leaf counted; if it
@@ -446,6 +520,12 @@ func c03StepView(s *treeState, op Op, cur ygot.GoStruct, replica *ygot.GoStruct,
 		}
 	}
 	if d := model.DiffFlat(want, flat(mr), 6); len(d) > 0 {
+		if s.p.HasTag("sharedcont") {
+			if what := sharedContainerLoss(want, flat(mr), mb, notifs, preferShadow); what != "" {
+				s.st.Probes["shared_container_content_lost"]++
+				return nil, violation("C03", "incomplete", "C03:shared-container:sibling-lost", "after applying DiffWithAtomic's %d notifications the copy differs from the modified tree: %s", len(notifs), what)
+			}
+		}
 		return nil, violation("C03", "incomplete", sigp+"replica-differs", "after applying Diff's %d deletes and %d updates (%d notifications) the copy differs from the modified tree: %v", nd, nu, len(notifs), d)
 	}
 	if twin != nil {
